@@ -834,7 +834,7 @@ func (s *detSite) classify(p *engine.Prog, lb map[*ssa.BasicBlock]bool, hdr *ssa
 	switch {
 	case len(s.effects) == 0:
 		s.idiom, s.why = "I0", "no effect outside the iteration"
-	case only(func(e string) bool { return pre(e, "carried:int", "exit:return(const)", "earlyexit") }) && !hasEff(s.effects, "carried:int") :
+	case only(func(e string) bool { return pre(e, "carried:int", "exit:return(const)", "earlyexit") }) && !hasEff(s.effects, "carried:int"):
 		s.idiom, s.why = "I5", "pure search returning a constant"
 	case only(func(e string) bool { return pre(e, "carried:int") }):
 		s.idiom, s.why = "I0", "integer/boolean accumulation only (commutative)"
@@ -1341,10 +1341,10 @@ func srcSideCondition(p *engine.Prog, key string, f *ssa.Function, fns []*ssa.Fu
 }
 
 var detSrcTable = map[string]srcEntry{
-	"validateBlockTimestamp|time.Now": {reason: "the timestamp window is by definition relative to the validator's clock; it decides acceptance of a candidate block, not the result of the transition (C03-R2)"},
-	"ValidationCeremony.shouldInteractWithNetwork|time.Now": {reason: "decides only whether to log / talk to the network; inside the transition reach set it is called solely by the log wrapper", callersInReach: []string{"ValidationCeremony.logInfoWithInteraction"}},
+	"validateBlockTimestamp|time.Now":                              {reason: "the timestamp window is by definition relative to the validator's clock; it decides acceptance of a candidate block, not the result of the transition (C03-R2)"},
+	"ValidationCeremony.shouldInteractWithNetwork|time.Now":        {reason: "decides only whether to log / talk to the network; inside the transition reach set it is called solely by the log wrapper", callersInReach: []string{"ValidationCeremony.logInfoWithInteraction"}},
 	"C16-R1:ValidationCeremony.shouldInteractWithNetwork|time.Now": {reason: "decides only whether to log and whether to pre-load the node's own flips into memory (local I/O); the lottery result (shardLotteries, flips per candidate) is computed before and independently of it", callersInReach: []string{"ValidationCeremony.calculateCeremonyCandidates", "ValidationCeremony.logInfoWithInteraction"}},
-	"C16-R1:ValidationCeremony.calculateCeremonyCandidates|go": {reason: "go vc.flipper.LoadInMemory(own flips): local pre-loading of flip content after the lottery result is final; the goroutines receive the already computed lists"},
+	"C16-R1:ValidationCeremony.calculateCeremonyCandidates|go":     {reason: "go vc.flipper.LoadInMemory(own flips): local pre-loading of flip content after the lottery result is final; the goroutines receive the already computed lists"},
 }
 
 func srcLookup(rule, key string) (srcEntry, bool) {
